@@ -49,7 +49,7 @@ def formats_of(m, wd):
 
 LABELS = ["p", "q", "res_1", "d", "Formula0", "x1"]
 # result archives accept any label: dots, dashes, blanks
-ARCHIVE_LABELS = LABELS + ["attractors.v2", "a.b.c", "formula-3", "res 1", ".hidden", "x.bdd"]
+ARCHIVE_LABELS = LABELS + ["attractors.v2", "a.b.c", "formula-3", "res 1", ".hidden", "x.bdd", "sub/p", "old/res_1"]
 
 
 def label_specs(rng, labels, inside=None):
@@ -191,13 +191,28 @@ def run_c17(tier, seed, replay):
             asts = [fg.gen(rng.randint(1, 8)) for _ in range(rng.randint(1, 4))]
             import synprops
             texts = [synprops.render_min(a, rng).replace("\n", " ") if rng.random() < 0.5 else gen.render(a) for a in asts]
-            scenario = rng.choice(["ok"] * 7 + ["bad_formula", "missing_label", "wild_without_e", "no_model", "bad_model", "bad_ext", "no_formulae", "bad_ctx"])
+            # every failure scenario is exercised in every run of the check (round-robin over the runs), the rest are ordinary runs
+            SC = ["ok", "ok", "nested_label", "ok", "bad_formula", "ok", "missing_label", "ok", "wild_without_e", "ok", "nested_label", "no_model",
+                  "ok", "bad_model", "ok", "bad_ext", "ok", "no_formulae", "ok", "bad_ctx", "ok", "missing_label"]
+            scenario = SC[len(runs) % len(SC)]
+            if scenario in ("nested_label", "missing_label", "bad_ctx") and not ext:
+                ext = True
+                labels = rng.sample(LABELS, rng.randint(1, 3))
+                fg = gen.FormulaGen(rng, m["vars"], wild=labels, doms=labels, p_quant=0.3, p_wild=0.4, binary=gen.BINARY_BOOL + gen.BINARY_TEMP, max_nest=2)
+                asts = [fg.gen(rng.randint(2, 8)) for _ in range(rng.randint(1, 3))] + [B("and", W(labels[0]), P(m["vars"][0]))]
+                texts = [gen.render(a) for a in asts]
             if scenario == "bad_formula":
                 texts[rng.randrange(len(texts))] = rng.choice(["a &", "(a", "AX {x}", "!{x}: !{x}: {x}", "nonvar", "a ~b", "EF"])
             if scenario == "wild_without_e":
                 ext, labels = False, []
                 texts.append("%p% & " + m["vars"][0])
             provided = list(labels)
+            if scenario == "nested_label" and ext:
+                used = sorted(set().union(*[gen.labels(a) for a in asts]))
+                if used:
+                    provided = [("sub/" + l if l == used[0] else l) for l in labels]
+                else:
+                    scenario = "ok"
             if scenario == "missing_label" and ext:
                 used = sorted(set().union(*[gen.labels(a) for a in asts]) or {"zz"})
                 if used == ["zz"]:
@@ -339,7 +354,8 @@ def conv_networks(rng, count):
         out.append(regs + "$t: " + fn + "\n" + extra)
     # arguments of an uninterpreted function that are expressions, constants or nested applications
     for i in range(max(4, count // 8)):
-        fn = rng.choice(["f(g(a))", "f(!a, b)", "f(a & b)", "f(a, true)", "f(g(a), g(b))", "g(f(a, b))", "f(a | b, !b) & !f(b, a)", "f(false) | a", "f(g(b)) ^ g(a)"])
+        fn = rng.choice(["f(g(a))", "f(!a, b)", "f(a & b)", "f(a, true)", "f(g(a), g(b))", "g(f(a, b))", "f(a | b, !b) & !f(b, a)", "f(false) | a", "f(g(b)) ^ g(a)",
+                         "f(true, a) & !f(b, a)", "f(a, false) | f(a, b)", "f(true) ^ f(a)", "f(false, b) => f(a, b)"])
         out.append("a -?? t\nb -?? t\n$t: " + fn + "\n" + rng.choice(["", "a -> b\n", "t -| a\n"]))
     out += ["b_1 -> b\nb_0 -> b_1\nb -> b_0\n", "a -> b\n$b: f(a)\n$a: k\n", "a -?? a\n$a: f(a, a) | !g(a)\nb -> a\n",
             "a -> c\nb -| c\nc -? a\n$b: true\n", "a -> b\n$b: f(a) & f(!a)\n$a: a\na -?? a\n"]
